@@ -86,16 +86,20 @@ SEEDED_CHECK = {
     "C08-B6": "C13", "C13-A4": "C14", "C12-A7": "C04",
     "C03-B8": "C04", "C04-B8": "C12", "C08-A8": "C13",
     "C13-B9": "C06", "C16-A9": "C12",
+    # wave 10
+    "C01-B10": "C04", "C02-B10": "C11", "C05-B10": "C15", "C07-A10": "C13", "C08-B10": "C15", "C11-A10": "C02", "C12-B10": "C13",
     "C02-A5": "C06", "C07-B5": "C14", "C08-A5": "C13", "C14-A5": "C18", "C14-B5": "C16", "C19-A5": "C07", "C19-B5": "C16",
 }
 
 
 SEEDED_BUDGET = {"C18-B8": 120, "C10-B8": 120}
-# confirmed changes the simulation does not reach (DESIGN, wave 9): kept under seeded/, not in the catalogue
+# confirmed changes the simulation does not reach or that leave the statement intact (DESIGN, waves 9 and 10): kept under seeded/, not in the catalogue
 SEEDED_OUT_OF_REACH = {
     "C05-A9": "needs the wall clock to step while the monotonic clock goes on; the synctest clock has one reading and the production clock of the throttle cannot be injected",
     "C20-A9": "same: wall-clock step under the limiter's default clock",
     "C06-B9": "descriptor leak per delivered D-Bus event; there is no system bus in the simulation, every event attempt fails before a connection exists",
+    "C16-B10": "does not break the statement: the images served stay whole copies of the most recent completed frame; only the frame number next to them (and the 'no new frames yet' refusal derived from it) changes, which C16 does not constrain",
+    "C18-B10": "does not break the statement: flush-before-close still happens, only the error value of bufferedFile.Close changes, and the daemon discards that value",
     "C18-B9": "needs more than 256 reconnects in one thermal-writer process (each allocates 32 MiB); the stratum that did this made the runs take minutes",
 }
 
